@@ -2,7 +2,7 @@
 CHECK = {
     "pkg": "overlay/batch", "files": ["overlay/batch/c23_test.go"], "run": "^TestC23",
     "quick": {"scale": 1, "shards": 1, "timeout": 600},
-    "thorough": {"scale": 5, "shards": 8, "timeout": 1500},
+    "thorough": {"scale": 10, "shards": 8, "timeout": 1500},
     "rule": "rapid-generated batches (1-3 flush rounds on one MultiCoalescer; 1-300 packets; 1-12 flows over IPv4/IPv6 x "
             "TCP/UDP/other sharing addresses and ports; two tunnel epochs; counters with gaps) built packet by packet from "
             "per-flow state with drawn step kinds (contiguous data, PSH, short/long segments, gaps, retransmits, pure ACKs, "
